@@ -1009,3 +1009,154 @@ Proof.
   - rewrite (sumR_swap (fun d0 i => E e d0 a * Cop c i d0 * (mget Bf i l / (nth i s 0 * nth i s 0))) (seq 0 n) (seq 0 n)).
     apply sumR_map_ext. intros i _. unfold Bm. unfold Rdiv. rewrite <- !sumR_map_mul_l. apply sumR_map_ext. intros d0 _. ring.
 Qed.
+
+(* function-list / function-list block *)
+Theorem ff_block (B0 B1 : @mat ROps) (s : list R) n a b :
+  length B0 = n -> length B1 = n -> (forall i, (i < n)%nat -> nth i s 0 <> 0) -> (a < ncols B0)%nat -> (b < ncols B1)%nat ->
+  mget (dotTN (div_rows B0 s) (div_rows B1 s)) a b =
+  sumR (map (fun i => mget B0 i a * mget B1 i b / (nth i s 0 * nth i s 0)) (seq 0 n)).
+Proof.
+  intros H0 H1 Hs Ha Hb. rewrite mget_dotTN by (rewrite ncols_div_rows; assumption). rewrite div_rows_length, H0.
+  apply sumR_map_ext. intros i Hi. apply in_seq in Hi. rewrite !mget_div_rows by lia. apply div_mul_div. apply Hs. lia.
+Qed.
+
+(* ================================================================== E. block assembly *)
+(* ---- slices and blocks ---- *)
+Lemma nth_firstn_lt {A} (l : list A) k i d : (i < k)%nat -> nth i (firstn k l) d = nth i l d.
+Proof. revert k i. induction l as [|x l IH]; intros [|k] [|i] H; cbn; auto; try lia. apply IH. lia. Qed.
+Lemma nth_skipn_add {A} (l : list A) k i d : nth i (skipn k l) d = nth (k + i) l d.
+Proof. revert k. induction l as [|x l IH]; intros [|k]; cbn; auto. destruct i; reflexivity. Qed.
+Lemma set_slice_length (v w : list R) lo : (lo + length w <= length v)%nat -> length (@set_slice ROps v lo w) = length v.
+Proof. intros H. unfold set_slice. rewrite !app_length, firstn_length, skipn_length. rfix. lia. Qed.
+Lemma nth_set_slice (v w : list R) lo b : (lo + length w <= length v)%nat ->
+  nth b (@set_slice ROps v lo w) 0 = if Nat.leb lo b && Nat.ltb b (lo + length w) then nth (b - lo) w 0 else nth b v 0.
+Proof.
+  intros H. unfold set_slice. rfix.
+  destruct (Nat.leb lo b) eqn:L1; cbn [andb].
+  - apply Nat.leb_le in L1. rewrite app_nth2 by (rewrite firstn_length; lia). rewrite firstn_length, Nat.min_l by lia.
+    destruct (Nat.ltb b (lo + length w)) eqn:L2.
+    + apply Nat.ltb_lt in L2. rewrite app_nth1 by lia. reflexivity.
+    + apply Nat.ltb_ge in L2. rewrite app_nth2 by lia. rewrite nth_skipn_add. f_equal. lia.
+  - apply Nat.leb_gt in L1. rewrite app_nth1 by (rewrite firstn_length; lia). apply nth_firstn_lt. lia.
+Qed.
+
+Lemma set_block_rows N (F Bk : @mat ROps) r0 c0 h : length F = N -> (r0 + h <= N)%nat ->
+  let F' := fold_left (fun F i => upd_set F (r0 + i) (@set_slice ROps (nth (r0 + i) F []) c0 (nth i Bk []))) (seq 0 h) F in
+  length F' = N /\
+  forall a, nth a F' [] = if Nat.leb r0 a && Nat.ltb a (r0 + h) then @set_slice ROps (nth a F []) c0 (nth (a - r0) Bk []) else nth a F [].
+Proof.
+  intros HL. induction h as [|h IH]; intros Hh F'.
+  - cbn in F'. subst F'. split; auto. intros a. destruct (Nat.leb r0 a) eqn:L; cbn [andb]; auto.
+    destruct (Nat.ltb a (r0 + 0)) eqn:L2; auto. apply Nat.leb_le in L. apply Nat.ltb_lt in L2. lia.
+  - subst F'. rewrite seq_S, fold_left_app. cbn [fold_left plus].
+    destruct IH as [IH1 IH2]; [lia|]. split; [rewrite upd_set_length; exact IH1|]. intros a.
+    rewrite nth_upd_set by lia. rewrite IH2.
+    assert (Nat.leb r0 (r0 + h) && Nat.ltb (r0 + h) (r0 + h) = false) as ->.
+    { apply andb_false_iff. right. apply Nat.ltb_ge. lia. }
+    destruct (Nat.eqb (r0 + h) a) eqn:X.
+    + apply Nat.eqb_eq in X. subst a.
+      assert (Nat.leb r0 (r0 + h) && Nat.ltb (r0 + h) (r0 + S h) = true) as ->.
+      { apply andb_true_iff. split; [apply Nat.leb_le | apply Nat.ltb_lt]; lia. }
+      replace (r0 + h - r0)%nat with h by lia. reflexivity.
+    + apply Nat.eqb_neq in X. rewrite IH2.
+      destruct (Nat.leb r0 a) eqn:L; cbn [andb]; auto. apply Nat.leb_le in L.
+      destruct (lt_dec a (r0 + h)) as [L2|L2].
+      * assert (Nat.ltb a (r0 + h) = true) as -> by (apply Nat.ltb_lt; lia).
+        assert (Nat.ltb a (r0 + S h) = true) as -> by (apply Nat.ltb_lt; lia). reflexivity.
+      * assert (Nat.ltb a (r0 + h) = false) as -> by (apply Nat.ltb_ge; lia).
+        assert (Nat.ltb a (r0 + S h) = false) as -> by (apply Nat.ltb_ge; lia). reflexivity.
+Qed.
+Lemma set_block_spec N (F Bk : @mat ROps) r0 c0 h w : shape N N F -> shape h w Bk -> (r0 + h <= N)%nat -> (c0 + w <= N)%nat ->
+  shape N N (@set_block ROps F r0 c0 Bk) /\
+  forall a b, mget (@set_block ROps F r0 c0 Bk) a b =
+    if Nat.leb r0 a && Nat.ltb a (r0 + h) && (Nat.leb c0 b && Nat.ltb b (c0 + w)) then mget Bk (a - r0) (b - c0) else mget F a b.
+Proof.
+  intros [HF1 HF2] [HB1 HB2] Hr Hc. unfold set_block. rewrite HB1.
+  destruct (set_block_rows N F Bk r0 c0 h HF1 Hr) as [L R]. split.
+  - split; [exact L|]. intros a Ha. rewrite R.
+    destruct (Nat.leb r0 a && Nat.ltb a (r0 + h)) eqn:X; [|auto].
+    apply andb_true_iff in X. destruct X as [X1 X2]. apply Nat.leb_le in X1. apply Nat.ltb_lt in X2.
+    rewrite set_slice_length; [auto|]. rewrite HB2 by lia. rewrite HF2 by lia. lia.
+  - intros a b. rewrite !mget_R. rewrite R.
+    destruct (Nat.leb r0 a && Nat.ltb a (r0 + h)) eqn:X; cbn [andb]; [|reflexivity].
+    apply andb_true_iff in X. destruct X as [X1 X2]. apply Nat.leb_le in X1. apply Nat.ltb_lt in X2.
+    rewrite nth_set_slice by (rewrite HB2, HF2 by lia; lia). rewrite HB2 by lia. reflexivity.
+Qed.
+
+(* ---- offsets of the objects ---- *)
+Definition dflt : @lobj ROps := LFunc [] None 0%nat true.
+Definition ob (objs : list (@lobj ROps)) (k : nat) : @lobj ROps := nth k objs dflt.
+Definition tp (l : list (@lobj ROps)) : nat := list_sum (map params l).
+Definition off (objs : list (@lobj ROps)) (k : nat) : nat := tp (firstn k objs).
+
+Lemma total_params_tp objs : @total_params ROps objs = tp objs.
+Proof.
+  unfold total_params, tp. assert (G : forall l a, fold_left (fun a o => (a + @params ROps o)%nat) l a = (a + list_sum (map params l))%nat).
+  { unfold list_sum. induction l as [|o l IH]; intros a; cbn [fold_left map fold_right]; [lia|]. rewrite IH. lia. }
+  apply G.
+Qed.
+Lemma tp_app l1 l2 : tp (l1 ++ l2) = (tp l1 + tp l2)%nat.
+Proof. unfold tp. now rewrite map_app, list_sum_app. Qed.
+Lemma tp_single o : tp [o] = params o.
+Proof. unfold tp. cbn. lia. Qed.
+Lemma firstn_S_nth {A} (l : list A) k d : (k < length l)%nat -> firstn (S k) l = firstn k l ++ [nth k l d].
+Proof. revert k. induction l as [|x l IH]; intros [|k] H; cbn in *; try lia; auto. f_equal. apply IH. lia. Qed.
+Lemma off_S objs k : (k < length objs)%nat -> off objs (S k) = (off objs k + params (ob objs k))%nat.
+Proof. intros H. unfold off, ob. rewrite (firstn_S_nth objs k dflt H), tp_app. unfold tp at 2. cbn. lia. Qed.
+Lemma off_mono objs k k' : (k < k')%nat -> (k' <= length objs)%nat -> (off objs k + params (ob objs k) <= off objs k')%nat.
+Proof.
+  intros H1 H2. induction k' as [|k' IH]; [lia|].
+  destruct (Nat.eq_dec k k') as [->|N].
+  - rewrite off_S by lia. lia.
+  - rewrite off_S by lia. assert (off objs k + params (ob objs k) <= off objs k')%nat by (apply IH; lia). lia.
+Qed.
+Lemma off_all objs : off objs (length objs) = tp objs.
+Proof. unfold off. now rewrite firstn_all. Qed.
+Lemma off_bound objs k : (k < length objs)%nat -> (off objs k + params (ob objs k) <= tp objs)%nat.
+Proof. intros H. rewrite <- off_all. apply off_mono; lia. Qed.
+Lemma locate_range objs i k la x : (i < length objs)%nat -> (k < length objs)%nat -> (la < params (ob objs i))%nat ->
+  x = (off objs i + la)%nat -> (off objs k <= x)%nat -> (x < off objs k + params (ob objs k))%nat -> k = i.
+Proof.
+  intros Hi Hk Hla -> H1 H2. destruct (Nat.lt_trichotomy k i) as [L|[E|L]]; auto; exfalso.
+  - pose proof (off_mono objs k i L ltac:(lia)). lia.
+  - pose proof (off_mono objs i k L ltac:(lia)). lia.
+Qed.
+
+(* ---- param_range_list_from / cls_list_from through object indices ---- *)
+Definition idxs (cls : @lobj ROps -> bool) (objs : list (@lobj ROps)) : list nat :=
+  filter (fun k => cls (ob objs k)) (seq 0 (length objs)).
+Definition ent (objs : list (@lobj ROps)) (k : nat) : @lobj ROps * (nat * nat) :=
+  (ob objs k, (off objs k, (off objs k + params (ob objs k))%nat)).
+
+Lemma nth_app_len {A} (l1 l2 : list A) x d : nth (length l1) (l1 ++ x :: l2) d = x.
+Proof. rewrite app_nth2 by lia. now rewrite Nat.sub_diag. Qed.
+Lemma firstn_app_len {A} (l1 l2 : list A) : firstn (length l1) (l1 ++ l2) = l1.
+Proof. rewrite firstn_app, Nat.sub_diag, firstn_all. cbn. apply app_nil_r. Qed.
+Lemma ranges_from_idx cls suf : forall pre,
+  @ranges_from ROps cls suf (tp pre) =
+  map (fun k => snd (ent (pre ++ suf) k)) (filter (fun k => cls (ob (pre ++ suf) k)) (seq (length pre) (length suf))).
+Proof.
+  induction suf as [|o t IH]; intros pre; [reflexivity|].
+  cbn [ranges_from length seq filter]. unfold ob at 1. rewrite nth_app_len.
+  specialize (IH (pre ++ [o])). rewrite tp_app, tp_single in IH. rewrite IH. rewrite <- app_assoc. cbn [app]. rewrite app_length. cbn [length].
+  rewrite Nat.add_1_r.
+  destruct (cls o); cbn [app map]; [|reflexivity]. f_equal.
+  unfold ent, off, ob. cbn [snd]. rewrite firstn_app_len, nth_app_len. reflexivity.
+Qed.
+Lemma filter_idx cls suf : forall pre,
+  filter cls suf = map (ob (pre ++ suf)) (filter (fun k => cls (ob (pre ++ suf) k)) (seq (length pre) (length suf))).
+Proof.
+  induction suf as [|o t IH]; intros pre; [reflexivity|].
+  cbn [length seq filter]. unfold ob at 2. rewrite nth_app_len.
+  specialize (IH (pre ++ [o])). rewrite <- app_assoc in IH. cbn [app] in IH. rewrite app_length in IH. cbn [length] in IH.
+  rewrite Nat.add_1_r in IH.
+  destruct (cls o); cbn [map]; rewrite IH; [|reflexivity]. f_equal. unfold ob. now rewrite nth_app_len.
+Qed.
+Lemma combine_map_same {A B C} (f : A -> B) (g : A -> C) l : combine (map f l) (map g l) = map (fun x => (f x, g x)) l.
+Proof. induction l; cbn; auto. now rewrite IHl. Qed.
+Lemma entries_idx cls objs :
+  combine (filter cls objs) (@ranges_from ROps cls objs 0) = map (ent objs) (idxs cls objs).
+Proof.
+  change 0%nat with (tp []). rewrite (ranges_from_idx cls objs []), (filter_idx cls objs []). cbn [app length].
+  rewrite combine_map_same. unfold idxs. apply map_ext. intros k. reflexivity.
+Qed.
